@@ -44,6 +44,11 @@ struct String {
 
     /// Assigns \a other to this string and returns a reference to this string.
     String &operator=(const String &other) {
+        // Both strings already share the same data (this includes self-assignment):
+        // dropping our reference first could free the data we are about to clone.
+        if (other.inner == inner) {
+            return *this;
+        }
         cbindgen_private::resolvo_string_drop(this);
         cbindgen_private::resolvo_string_clone(this, &other);
         return *this;
@@ -52,8 +57,10 @@ struct String {
     /// Assigns the string view \a s to this string and returns a reference to this string.
     /// The underlying string data is copied.  It is assumed that the string is UTF-8 encoded.
     String &operator=(std::string_view s) {
-        cbindgen_private::resolvo_string_drop(this);
-        cbindgen_private::resolvo_string_from_bytes(this, s.data(), s.size());
+        // `s` may refer to the data of this string, so create the new string before
+        // releasing the old data.
+        String other(s);
+        std::swap(inner, other.inner);
         return *this;
     }
 
